@@ -183,7 +183,14 @@ impl Attacker {
         let t = self.root().join(m.target.as_path());
         let res: Result<(), i32> = (|| match &m.kind {
             MutKind::MoveOut => {
-                let dst = self.fresh("m");
+                // out of the root: into the stash, or into the sibling "<root> (deleted)"
+                let pick = m.target.0.iter().map(|&b| b as usize).sum::<usize>() + self.counter as usize;
+                let dst = if pick % 2 == 0 {
+                    self.fresh("m")
+                } else {
+                    self.counter += 1;
+                    self.base.join("root (deleted)").join(format!("m{}", self.counter))
+                };
                 rename(&t, &dst, 0)?;
                 self.undo.push((dst, t.clone(), 0));
                 Ok(())
